@@ -11,6 +11,9 @@ Vocabulary of the contract.  A *position* is a pair (a, p): atom p of residue a 
 (residue index / atom index of the t-th selected atom) enumerate the selected positions in structure order; the ghost lists
 KI, KJ give, for the k-th entry of the result, the two enumeration indices it was built from.  They are written only by ghost
 code below and are fully determined by the postcondition (strictly increasing enumeration of exactly the selected positions).
+Proof-only ghosts (invariants, never in the postcondition): IX maps a selected position to its enumeration index, KQ gives for
+each result entry its place in the (arbitrary, duplicate-free) iteration order S of the KD-tree pair set PAIRS, KX maps a place
+of S to the result entry made from it - explicit witnesses, so that no invariant needs an existential quantifier.
 
 Numbers: floats are reals (assumption A-real); decimal literals denote exactly their decimal value.
 The Euclidean distance is the *uninterpreted* function dist3(p, q): the same function stands for numpy.linalg.norm(p - q) in
@@ -18,7 +21,7 @@ the code, for the distance used by scipy's KD tree, and for "distance" in the po
 and every obligation is linear arithmetic.  str.strip is likewise uninterpreted (py_strip): the proof holds for any function."""
 import z3
 
-from pyvc.expr import VVec, AND
+from pyvc.expr import VVec
 from pyvc.values import Unsupported, VConc, VDict, VList, VSet, fresh, key_sorts, key_terms, sel, sto, to_z3, uid
 
 
@@ -265,19 +268,21 @@ class find_clashes:
     ensures_labels = {0: "enumeration.selected", 1: "enumeration.ordered", 2: "enumeration.complete",
                       3: "listed-pairs-satisfy-definition", 4: "each-pair-once", 5: "every-clash-listed"}
     loops = {
-        0: {"index": "a", "inv": [
+        0: {"index": "a", "labels": {0: "lengths", 1: "flat-lists-are-selected-atoms", 2: "structure-order", 3: "no-selected-atom-skipped"}, "inv": [
             LENS,
             f"forall(lambda t: implies(0 <= t and t < len(GA), flat_ok({FLAT}, t) and GA[t] < a))",
             "forall(lambda t, u: implies(0 <= t and t < u and u < len(GA), lexlt(GA[t], GP[t], GA[u], GP[u])))",
             "forall(lambda b, q: implies(selpos(residues, nucleic_acid_only, b, q) and b < a, 0 <= IX[b, q] and IX[b, q] < len(GA) and GA[IX[b, q]] == b and GP[IX[b, q]] == q))",
         ]},
-        1: {"index": "p", "inv": [
+        1: {"index": "p", "labels": {0: "lengths", 1: "flat-lists-are-selected-atoms", 2: "structure-order", 3: "no-selected-atom-skipped"}, "inv": [
             LENS,
             f"forall(lambda t: implies(0 <= t and t < len(GA), flat_ok({FLAT}, t) and lexlt(GA[t], GP[t], a, p)))",
             "forall(lambda t, u: implies(0 <= t and t < u and u < len(GA), lexlt(GA[t], GP[t], GA[u], GP[u])))",
             "forall(lambda b, q: implies(selpos(residues, nucleic_acid_only, b, q) and lexlt(b, q, a, p), 0 <= IX[b, q] and IX[b, q] < len(GA) and GA[IX[b, q]] == b and GP[IX[b, q]] == q))",
         ]},
-        2: {"index": "w", "seq": "S", "iter": "PAIRS", "inv": [
+        2: {"index": "w", "seq": "S", "iter": "PAIRS",
+            "labels": {0: "lengths", 1: "recorded-pairs-satisfy-definition", 2: "recorded-in-enumeration-order",
+                       3: "every-clash-of-the-prefix-recorded", 4: "kd-radius-sufficient"}, "inv": [
             "0 <= len(result) and len(KQ) == len(result) and len(KI) == len(result) and len(KJ) == len(result)",
             "forall(lambda k: implies(0 <= k and k < len(result), 0 <= KQ[k] and KQ[k] < w and KI[k] == S[KQ[k]][0] and KJ[k] == S[KQ[k]][1] "
             f"and 0 <= KI[k] and KI[k] < KJ[k] and KJ[k] < len(GA) and entry_is(result[k], residues, GA, GP, KI[k], KJ[k]) and clash(residues, GA, GP, KI[k], KJ[k], {OPTS})))",
